@@ -36,7 +36,7 @@ def leaves(L, complex_mode=False):
         "int": [L.LiteralInt(2), L.LiteralInt(1), L.Symbol("i", I), L.Symbol("j", I), L.LiteralInt(-1)],
     }
     if complex_mode:
-        out["num"] += [L.LiteralFloat(1.5 - 0.5j), L.LiteralFloat(-0.25 + 2j)]
+        out["num"] += [L.LiteralFloat(1.5 - 0.5j), L.LiteralFloat(-0.25 + 2j), L.LiteralFloat(2j), L.LiteralFloat(-1.5j)]
     return out
 
 
@@ -254,6 +254,9 @@ def interp_value(t, complex_mode=False):
         return "unsupported:" + str(e)
     if it.ambiguous:
         return "ambiguous:" + it.ambiguous
+    interp_value.int_typed = it.int_typed_math
+    if it.branch_cut_function:
+        return "branch-cut-function-in-complex-mode"
     if it.saw_nan:
         return "nan-intermediate"
     if isinstance(v, (bool, np.bool_)):
@@ -265,6 +268,8 @@ def close(x, y, rel=1e-9):
     if isinstance(x, str) or isinstance(y, str):
         return None
     x, y = complex(x), complex(y)
+    if any(math.isinf(v) for v in (x.real, x.imag, y.real, y.imag)):
+        return None  # overflow: complex infinities are represented differently by C, numpy and Python
     if cmath_isnan(x) and cmath_isnan(y):
         return True
     if cmath_isnan(x) != cmath_isnan(y):
@@ -437,6 +442,7 @@ def run_case(case):
                 res["evaluations"] += 1
                 count("trees")
                 canon = RP.from_lnodes(t)
+                interp_value.int_typed = False
                 expected = interp_value(t, cm)
                 # ---------------- C
                 try:
@@ -486,7 +492,7 @@ def run_case(case):
                         elif not isinstance(expected, str) and not isinstance(pv, str):
                             ok = close(pv, expected)
                             count("py_value_checks")
-                            if cmath_isnan(complex(pv)) or cmath_isnan(complex(expected)):
+                            if cmath_isnan(complex(pv)) or cmath_isnan(complex(expected)) or (cm and getattr(interp_value, "int_typed", False)):
                                 ok = None  # NaN propagation of np.minimum/np.sqrt vs libm is not part of the property
                             if ok is False:
                                 viol("numba-value-differs", f"numba text `{ptext[:120]}` evaluates to {pv}, the AST to {expected} ({label})")
@@ -605,15 +611,21 @@ def run_case(case):
                         viol("literal-off-by-more-than-1ulp", f"float32 literal `{txt}` -> {b32!r} vs {v32!r}")
                 # complex literal
                 z = complex(v, -v / 3 if abs(v) < 1e300 else 1.0)
+                if count_pure(res):
+                    z = complex(0.0, v)  # purely imaginary literals must be atomic text too
                 txt = cf64(L.LiteralFloat(z))
                 try:
                     g = RP.parse_c_expr(txt)
+                    g2 = RP.parse_c_expr("a / " + txt)
+                    if g2[0] != "/" or g2[2] != g:
+                        viol("complex-literal-not-atomic", f"complex literal `{txt}` is not atomic: `a / {txt}` parses to {str(g2)[:120]}")
                     if g[0] != "cplx":
                         viol("complex-literal-malformed", f"`{txt}` parses to {str(g)[:100]}")
                     else:
                         count("complex_literal_ok")
                 except Exception as e:
                     viol("complex-literal-malformed", f"`{txt}`: {type(e).__name__}: {str(e)[:80]}")
+            res.pop("_n", None)
             res["nontrivial"] = [case_hash([case["seed"], q]) for q in range(min(len(vals), 50))]
             res["sample"] = {"kind": "literals", "examples": [[repr(v), cf64(L.LiteralFloat(float(v)))] for v in vals[:5]]}
     finally:
@@ -626,6 +638,11 @@ def run_case(case):
         res["evaluations"] = 0
         res["why"] = "empty slice"
     return res
+
+
+def count_pure(res):
+    res["_n"] = res.get("_n", 0) + 1
+    return res["_n"] % 3 == 0
 
 
 def _contains(t, L, pred):
